@@ -5,11 +5,28 @@ import (
 	"fmt"
 )
 
+// closeAndDeleteModule marks m closed with the given exit code and makes its name available again in one
+// critical section, so that no lookup or registration can observe a closed module that still owns its
+// name. It returns false if m was already closed.
+func (s *Store) closeAndDeleteModule(m *ModuleInstance, exitCode uint32, flag exitCodeFlag) bool {
+	s.mux.Lock()
+	defer s.mux.Unlock()
+	if !m.setExitCode(exitCode, flag) {
+		return false
+	}
+	_ = s.deleteModuleLocked(m)
+	return true
+}
+
 // deleteModule makes the moduleName available for instantiation again.
 func (s *Store) deleteModule(m *ModuleInstance) error {
 	s.mux.Lock()
 	defer s.mux.Unlock()
+	return s.deleteModuleLocked(m)
+}
 
+// deleteModuleLocked is deleteModule for callers that hold s.mux.
+func (s *Store) deleteModuleLocked(m *ModuleInstance) error {
 	// Remove this module name.
 	if m.prev != nil {
 		m.prev.next = m.next
